@@ -57,6 +57,10 @@ def ok_position(a, h, vs, m=0.02):
             return False
         if math.hypot(px - a, py) < 5 * m or math.hypot(px + a, py) < 5 * m:
             return False
+        # no edge may pass near a corner of the cap
+        for cx in (a, -a):
+            if dist2_point_seg((F(cx), F(0)), (F(px), F(py)), (F(q[0]), F(q[1]))) < F(5 * m) ** 2:
+                return False
         dx, dy = q[0] - px, q[1] - py
         k = h / (a * a)
         A, B, C = k * dx * dx, dy + 2 * k * px * dx, py - h + k * px * px
